@@ -36,18 +36,14 @@ def main_evidence(ctx, behs, summ, extra=None):
         extra=dict({"counters": summ["counters"]}, **(extra or {})),
         assumptions=["segment boundaries are produced with TCP_NODELAY and 25 ms gaps on loopback", "SOCKS version 5 greetings only"])
 
-_run = run
-def run(ctx):
-    behs, summ = _run(ctx)
-    quick = ctx.tier == "quick"
-    # ---- the proxy table under operator commands
+def _table(ctx, hb, quick):
+    """the proxy table under operator commands (SocksTable.tla)"""
     core.design_check(ctx, "SocksTable.tla", "SocksTable.cfg", timeout=600)
     tb = core.generate(ctx, "Gen_SocksTable.tla", "Gen_SocksTable_bfs.cfg", 0, 0, ctx.seed, bfs=True, timeout=600)
     if quick:
         import random
         random.Random(ctx.seed).shuffle(tb); tb = tb[:250]
     tb += core.generate(ctx, "Gen_SocksTable.tla", "Gen_SocksTable.cfg", 40 if quick else 800, 10, ctx.seed, timeout=600)
-    hb = core.build_harness(ctx)
     trace, ts = core.run_harness(ctx, hb, "sockstable", tb, "sockstable", timeout=3000)
     for inc in ts["incidents"]:
         core.report(ctx, {"check": "replay", "kind": inc["kind"], "site": inc["site"]}, inc)
@@ -56,5 +52,39 @@ def run(ctx):
         evs = [json.loads(l) for l in x["lines"]]
         ev = evs[x["event"] - 1] if 0 < x["event"] <= len(evs) else {}
         core.report(ctx, {"check": "Mon_SocksTable", "invariant": x["invariant"], "op": ev.get("ev", "?")}, {"events": evs, "failing_event": x["event"]})
-    summ["behaviours"] += ts["behaviours"]
-    main_evidence(ctx, behs + tb, summ, {"table_counters": ts["counters"]})
+    return tb, ts
+
+def _portfwd(ctx, hb, quick):
+    """the reverse port forward relay (PortFwd.tla): agent <-> target, both directions, closes from either side"""
+    core.design_check(ctx, "PortFwd.tla", "PortFwd.cfg", timeout=900)
+    pb = core.generate(ctx, "Gen_PortFwd.tla", "Gen_PortFwd_bfs.cfg", 0, 0, ctx.seed, bfs=True, timeout=600)
+    if quick:
+        import random
+        random.Random(ctx.seed).shuffle(pb); pb = pb[:320]
+    pb += core.generate(ctx, "Gen_PortFwd.tla", "Gen_PortFwd.cfg", 120 if quick else 1500, 40, ctx.seed, timeout=600)
+    ctx.say("  port forward histories: %d" % len(pb))
+    trace, ps = core.run_harness(ctx, hb, "portfwd", pb, "portfwd", timeout=3000)
+    for inc in ps["incidents"]:
+        core.report(ctx, {"check": "replay", "kind": inc["kind"], "site": inc["site"]}, inc)
+    v = core.validate_traces(ctx, "Trace_PortFwd.tla", "Trace_PortFwd_strict.cfg", "Trace_PortFwd_mon.cfg", trace, "portfwd", timeout=3000)
+    for x in v["violations"]:
+        evs = [json.loads(l) for l in x["lines"]]
+        ev = evs[x["event"] - 1] if 0 < x["event"] <= len(evs) else {}
+        prev = [e.get("ev") for e in evs[max(0, x["event"] - 3):x["event"] - 1]]
+        core.report(ctx, {"check": "Mon_PortFwd", "invariant": x["invariant"], "op": ev.get("ev", "?"), "after": prev[-1] if prev else ""}, {"events": evs, "failing_event": x["event"]})
+    return pb, ps
+
+_run = run
+def run(ctx):
+    import os
+    quick = ctx.tier == "quick"
+    only = os.environ.get("VERIF_ONLY", "")          # development aid: one part of the check
+    hb = core.build_harness(ctx)
+    behs, summ = _run(ctx) if only in ("", "socks") else ([], {"behaviours": 0, "samples": [], "counters": {}})
+    tb, ts = _table(ctx, hb, quick) if only in ("", "table") else ([], {"behaviours": 0, "counters": {}})
+    pb, ps = _portfwd(ctx, hb, quick) if only in ("", "portfwd") else ([], {"behaviours": 0, "counters": {}})
+    summ["behaviours"] += ts["behaviours"] + ps["behaviours"]
+    if only:
+        ctx.say("  VERIF_ONLY=%s: evidence not written" % only)
+        return
+    main_evidence(ctx, behs + tb + pb, summ, {"table_counters": ts["counters"], "portfwd_counters": ps["counters"]})
